@@ -11,6 +11,10 @@ import (
 // VerifServeConn serves one caller-supplied connection synchronously through
 // the real connection loop, on the caller's goroutine (verification hook H1).
 func (server *Server) VerifServeConn(c net.Conn, tlsState *tls.ConnectionState) error {
+	// what an accept loop does before it starts the connection goroutine
+	if !server.addPendingConn(c) {
+		return nil
+	}
 	return server.receive(c, tlsState)
 }
 
